@@ -27,7 +27,9 @@ class Evidence:
         self.cov["tlc_runs"].append({
             "model": name, "distinct_states": r.distinct, "states_generated": r.generated,
             "depth": r.depth, "completed": bool(r.completed), "wall_s": round(r.wall, 1),
-            "violated": r.violated, "note": note,
+            "violated": r.violated,
+            "note": note or ("cut off by the outer timeout: no violation among the states explored until then (counts from "
+                             "the last progress line)" if getattr(r, "timed_out", False) else ""),
             "coverage": {k: v[1] for k, v in sorted(r.coverage.items())},
         })
 
